@@ -96,7 +96,7 @@ func genValue(t *tape.Tape, depth int) *refcbor.Item {
 	case 4:
 		return refcbor.Nil()
 	case 5:
-		fs := []float64{0, 1.5, -2.25, 1e300, math.Inf(1), 3.0, 65504, 1.0e-5}
+		fs := []float64{0, 1.5, -2.25, 1e300, math.Inf(1), 3.0, 65504, 1.0e-5, math.NaN(), math.Inf(-1), math.Copysign(0, -1)}
 		return refcbor.Float64(fs[t.Choose(len(fs), "val.float")])
 	case 6:
 		n := t.Choose(4, "val.arr.n")
